@@ -252,7 +252,10 @@ class Flow:
                     exit_normal |= f
             else:
                 t = self._apply(s.target, new)
-                exit_normal |= new
+                nonempty_literal = isinstance(s.iter, (ast.List, ast.Tuple)) and len(s.iter.elts) > 0
+                if not (nonempty_literal and _ == 0):
+                    # a loop over a non-empty literal sequence runs its body at least once
+                    exit_normal |= new
             r = self.block(s.body, t)
             o.returns |= r.returns
             o.raises |= r.raises
